@@ -12,7 +12,7 @@ def configs(tier):
     F = 'models.fifo_scn:FifoScn'
     for N, ms in ((1, 1), (2, 1), (2, 2)) + (((3, 2), (3, 1), (3, 3)) if tier == 'thorough' else ()):
         cs.append((B, dict(N=N, maxsize=ms, fail_kinds=2)))
-    for N, c, cap in ((2, 1, 1), (2, 1, None)) + (((3, 2, 1), (3, 1, 2), (3, 2, None)) if tier == 'thorough' else ()):
+    for N, c, cap in ((2, 1, 1), (2, 1, None)) + (((3, 1, 2), (3, 2, None)) if tier == 'thorough' else ()):
         cs.append((F, dict(N=N, concurrency=c, capacity=cap, may_stop=True, src_fail=True, fn_fail=True)))
         cs.append((F, dict(N=N, concurrency=c, capacity=cap, may_stop=True, pre_fail=True, fn_fail=False,
                            return_exceptions=True)))
@@ -30,7 +30,7 @@ def run(tier):
     jobs = []
     for scn, params in configs(tier):
         spec = {'property': PID, 'scenario': scn, 'params': params, 'known': known}
-        jobs.append((run_b_job, (spec, 3000 if tier == 'thorough' else 900)))
+        jobs.append((run_b_job, (spec, 1800 if tier == 'thorough' else 900)))
     results = run_jobs(jobs)
     return finish(
         PID, tier, 'model_checking', results, t0,
